@@ -4,7 +4,7 @@
    the regular expressions. *)
 From Coq Require Import Ascii String List Bool Arith ZArith NArith Lia.
 Import ListNotations.
-From AM Require Import Lib.Bytes Lib.Regex Proofs.RegexLemmas Gen.SshdRegexes Gen.SshdDispatch
+From AM Require Import Lib.Bytes Lib.Utf8 Lib.Regex Proofs.RegexLemmas Gen.SshdRegexes Gen.SshdDispatch
   Model.SshdProc Proofs.SshdFields Proofs.SshdForms Proofs.SshdFields2.
 Open Scope string_scope.
 Open Scope list_scope.
@@ -16,7 +16,7 @@ Lemma m_ends_with l : forall its p s ops cs res,
 Proof.
   induction its as [|it r IH]; intros p s ops cs res H.
   - cbn [app] in H. apply lits_eol_exact in H. exists []. subst s. reflexivity.
-  - cbn [app] in H. destruct it as [x|k|k|g|g| |]; cbn [m] in H.
+  - cbn [app] in H. destruct it as [x|k|k|g|g| | |k]; cbn [m] in H.
     + destruct s as [|y s]; [discriminate|]. destruct (Ascii.eqb y x); [|discriminate].
       apply IH in H. destruct H as [z ->]. exists (y :: z). reflexivity.
     + destruct s as [|y s]; [discriminate|]. destruct (in_cls k y); [|discriminate].
@@ -27,6 +27,9 @@ Proof.
     + destruct (lookup_g g ops); [|discriminate]. apply IH in H. exact H.
     + destruct (Nat.eqb p 0); [|discriminate]. apply IH in H. exact H.
     + destruct s; [|discriminate]. apply IH in H. exact H.
+    + destruct s as [|y s]; [discriminate|]. destruct (in_cls k y); [|discriminate].
+      apply IH in H. destruct H as [z Hz].
+      exists (firstn (snd (decode_rune (y :: s))) (y :: s) ++ z). rewrite <- app_assoc, <- Hz. symmetry. apply firstn_skipn.
 Qed.
 
 (* two byte strings that differ at some common position *)
